@@ -8,6 +8,8 @@ import (
 	"path/filepath"
 	"strings"
 	"sync"
+	"sync/atomic"
+	"syscall"
 	"time"
 
 	"github.com/superfly/litefs"
@@ -167,7 +169,25 @@ func c09History(r *Run) {
 			}
 		case 2:
 			desc = "retention-sweep"
-			if err := h.n.Store.EnforceRetention(context.Background()); err != nil {
+			// sometimes one of the sweep's unlinks fails (an immutable file, a
+			// transient I/O error); whatever the sweep does then, what is left
+			// has to be one chain (checked after every step)
+			faulty := t.Chance(1, 3)
+			if faulty {
+				atomic.StoreInt64(&h.n.OS.fired, 0)
+				h.n.OS.FiredAt = ""
+				h.n.OS.FailErr = []error{syscall.EPERM, syscall.EIO, syscall.EINTR}[t.Next(3)]
+				h.n.OS.FailMatch = func(call, op, path string) bool { return call == "remove" && strings.HasSuffix(path, ".ltx") }
+				h.n.OS.FailNth = int64(t.Range(1, 4))
+				desc += " (unlink fails)"
+			}
+			err := h.n.Store.EnforceRetention(context.Background())
+			fired := faulty && h.n.OS.FiredAt != ""
+			h.n.OS.FailNth, h.n.OS.FailMatch = 0, nil
+			if fired {
+				r.Count("c09.retention.unlink-failed")
+			}
+			if err != nil && !fired {
 				r.Failf("c09.retention", "EnforceRetention: %v", err)
 			}
 		case 3:
